@@ -27,6 +27,12 @@ def r1(ctx, fs):
     env = LocalEnv(f)
     env.param_roles(['p'])
     g = cfg.Graph(f)
+    # the clauses below read the search for a new watch as a loop; written with a search algorithm of the standard library (a pure predicate: nothing
+    # else declines it) it is not readable here - say so instead of judging
+    if not any(n.get('k') in ('ForStmt', 'WhileStmt', 'CXXForRangeStmt', 'DoStmt') for n in f.nodes()):
+        alg = [n for n in f.nodes() if n.get('k') == 'CallExpr' and (n.get('callee_name') or '') in ('std::find_if', 'std::find_if_not', 'std::find', 'std::any_of', 'std::partition_point')]
+        if alg:
+            raise AnalysisBroken('%s: the search for a literal to watch is written with %s and no loop: a form this rule cannot read' % (f.id, alg[0]['callee_name']))
 
     def is_reg(t):
         if t.get('k') != 'CXXMemberCallExpr' or not (t.get('callee_name') or '').endswith('::push_back'):
